@@ -344,7 +344,10 @@ def check_c01(tier, pid="C01"):
 def check_cutoff(tier, pid):
     sc = SolveCheck(pid, tier, "proof")
     if pid == "C05": sc.proofs("C05+C05u", ["C05_seq_anytime_sound", "C05_seq_lb_le_ub", "C05_sequential_anytime_bounds_sound", "C05_holds_on_table_family",
-                                            "C05_sequential_anytime_bounds_sound_NoDupFringe", "C05_holds_on_table_family_NoDupFringe"])
+                                            "C05_sequential_anytime_bounds_sound_NoDupFringe", "C05_holds_on_table_family_NoDupFringe",
+                                            "C05_parallel_anytime_bounds_sound", "C05_parallel_bounds_sound_in_every_reachable_state",
+                                            "C05_parallel_holds_on_table_family", "C05_parallel_example_three_aborts",
+                                            "C05_parallel_regression_max_sentinel"])
     if pid == "C19": sc.proofs("C19+C19u", ["C19_cutoff_monotone", "C19_cutoff_monotone_any_later_point", "C19_eventually_the_uninterrupted_run",
                                        "C19_compile_prefix_determinism", "C19_bounds_monotone_in_cutoff", "C19_bounds_monotone_any_later_cutoff",
                                        "C19_large_cutoff_is_uninterrupted_run", "C19_bounds_monotone_in_cutoff_NoDupFringe",
@@ -428,8 +431,7 @@ def check_cutoff(tier, pid):
             "C19": "All consecutive cutoff indices of each run: lower bound non-decreasing, upper bound non-increasing in k, exact with both bounds at the optimum "
                    "after the last poll; Coq solver model compared at every k. Theorems: Assembly.C19_monotone(_gen), C19_eventually_full (via SolverCutoff.compile_agree)."}[pid]
     return sc.finish(RULE + "; cutoff firing at every poll index of the uninterrupted run", expl,
-                     ["parallel part of C05: no full theorem (partial lemmas D3_*; scheduled runs with cutoffs)",
-                      "cache / dominance / pooled configurations: correspondence + oracle only"] if pid == "C05"
+                     ["cache / dominance / pooled configurations (sequential and parallel), NoDupFringe in the parallel protocol: correspondence + oracle only"] if pid == "C05"
                      else ["cache / dominance / pooled configurations: correspondence + oracle only"])
 
 
